@@ -330,5 +330,24 @@ def rule_inplace_input_dtype(ctx, rid, quals):
             ctx.violation(rid, fi, c, bad[1], node=bad[0])
         else:
             ctx.passed(rid, fi, c)
+        # computed quantities are not cast back to the dtype of an argument (`np.array(v, dtype=X.dtype)`,
+        # `v.astype(X.dtype)`): for an integer signal the envelope / noise / component is truncated to whole numbers
+        c2 = 'computed arrays are not cast to the dtype of an input array'
+        bad = None
+        for node in walk_local(fi.node):
+            if not isinstance(node, ast.Call):
+                continue
+            cand = [k.value for k in node.keywords if k.arg == 'dtype']
+            if isinstance(node.func, ast.Attribute) and node.func.attr == 'astype' and node.args:
+                cand.append(node.args[0])
+            for a in cand:
+                if isinstance(a, ast.Attribute) and a.attr == 'dtype' and isinstance(a.value, ast.Name) \
+                        and (a.value.id in formals or a.value.id in carriers):
+                    bad = (node, '`%s` casts a computed quantity to the dtype of %s: with an integer signal the values are '
+                           'truncated (and float32 input loses precision) without any error' % (unparse(node)[:60], a.value.id))
+        if bad:
+            ctx.violation(rid, fi, c2, bad[1], node=bad[0])
+        else:
+            ctx.passed(rid, fi, c2)
     if n == 0:
         raise AnalysisError('L6: none of the functions %s found' % (list(quals),))
